@@ -29,7 +29,7 @@ func init() {
 			"goroutine switches happen only at synchronisation operations; sizes, MTUs and patterns come from the stated alphabets",
 		},
 		Units:          Units("C02", nil, ""),
-		QuickBudget:    80,
+		QuickBudget:    240,
 		ThoroughBudget: 1200,
 	})
 }
